@@ -126,6 +126,9 @@ func (f *Folder) Curve() (*fval, error) {
 		}
 		cv.curve[name] = v
 	}
+	// parameters that the literal does not carry may be filled in by the function that builds it: plain assignments
+	// (params.P = bigFromHex("...")) or a table of {&params.P, "hex"} entries walked by a loop that stores F(entry.hex)
+	f.curveFromBuilder(litPkg[0], lits[0], cv)
 	for _, k := range []string{"P", "N", "B", "Gx", "Gy"} {
 		if cv.curve[k] == nil || cv.curve[k].k != fBig {
 			f.curveE = fmt.Errorf("CurveParams.%s not resolved to an integer", k)
@@ -755,4 +758,119 @@ func (f *Folder) ConstInt(pkg, name string) (*big.Int, error) {
 		return nil, err
 	}
 	return v.big, nil
+}
+
+// curveFromBuilder: see Curve. Only fields still missing are filled; a field found twice with different values is left
+// unresolved.
+func (f *Folder) curveFromBuilder(pk *packages.Package, lit *ast.CompositeLit, cv *fval) {
+	want := map[string]bool{"P": true, "N": true, "B": true, "Gx": true, "Gy": true}
+	var fd *ast.FuncDecl
+	for _, file := range pk.Syntax {
+		for _, d := range file.Decls {
+			if g, ok := d.(*ast.FuncDecl); ok && g.Body != nil && g.Pos() <= lit.Pos() && lit.End() <= g.End() {
+				fd = g
+			}
+		}
+	}
+	if fd == nil {
+		return
+	}
+	isParamsField := func(e ast.Expr) (string, bool) {
+		sel, ok := e.(*ast.SelectorExpr)
+		if !ok || !want[sel.Sel.Name] {
+			return "", false
+		}
+		tv, ok := pk.TypesInfo.Types[sel.X]
+		if !ok {
+			return "", false
+		}
+		t := tv.Type
+		if pt, isPtr := t.Underlying().(*types.Pointer); isPtr {
+			t = pt.Elem()
+		}
+		if !isNamed(t, "crypto/elliptic", "CurveParams") {
+			return "", false
+		}
+		return sel.Sel.Name, true
+	}
+	found := map[string]*fval{}
+	clash := map[string]bool{}
+	put := func(name string, v *fval) {
+		if v == nil || v.k != fBig {
+			return
+		}
+		if o, ok := found[name]; ok && o.big.Cmp(v.big) != 0 {
+			clash[name] = true
+		}
+		found[name] = v
+	}
+	// the converter applied to the table strings: *entry.dst = F(entry.hex)
+	var conv *types.Func
+	ast.Inspect(fd.Body, func(n ast.Node) bool {
+		as, ok := n.(*ast.AssignStmt)
+		if !ok {
+			return true
+		}
+		if len(as.Lhs) >= 1 && len(as.Rhs) == 1 {
+			if name, ok := isParamsField(as.Lhs[0]); ok {
+				if v, err := f.Expr(pk, as.Rhs[0], nil); err == nil {
+					if v.k == fTuple && len(v.tuple) > 0 {
+						v = v.tuple[0]
+					}
+					put(name, v)
+				}
+			}
+			if _, isStar := as.Lhs[0].(*ast.StarExpr); isStar {
+				if call, ok := as.Rhs[0].(*ast.CallExpr); ok && len(call.Args) == 1 {
+					if id, ok := call.Fun.(*ast.Ident); ok {
+						if tf, ok := pk.TypesInfo.Uses[id].(*types.Func); ok {
+							conv = tf
+						}
+					}
+				}
+			}
+		}
+		return true
+	})
+	if conv != nil {
+		ast.Inspect(fd.Body, func(n ast.Node) bool {
+			cl, ok := n.(*ast.CompositeLit)
+			if !ok {
+				return true
+			}
+			var name, str string
+			n1, n2 := 0, 0
+			for _, el := range cl.Elts {
+				if kv, ok := el.(*ast.KeyValueExpr); ok {
+					el = kv.Value
+				}
+				if u, ok := el.(*ast.UnaryExpr); ok && u.Op == token.AND {
+					if nm, ok := isParamsField(u.X); ok {
+						name = nm
+						n1++
+					}
+				}
+				if bl, ok := el.(*ast.BasicLit); ok && bl.Kind == token.STRING {
+					if tv, ok := pk.TypesInfo.Types[bl]; ok && tv.Value != nil {
+						str = constant.StringVal(tv.Value)
+						n2++
+					}
+				}
+			}
+			if n1 == 1 && n2 == 1 {
+				if v, err := f.inline(conv, nil, pk, []*fval{{k: fString, str: str}}, nil); err == nil {
+					if v.k == fTuple && len(v.tuple) > 0 {
+						v = v.tuple[0]
+					}
+					put(name, v)
+				}
+			}
+			return true
+		})
+	}
+	for name, v := range found {
+		if cv.curve[name] == nil && !clash[name] {
+			cv.curve[name] = v
+		}
+	}
 }
